@@ -1,0 +1,30 @@
+//go:build verif
+
+package compiler
+
+// Machine-checked contract for the compiler's resolution of local variables across macro
+// boundaries (see /verif/DESIGN.md, C31).  This file contains no declarations: it only carries
+// specification comments that the elkvc verification-condition generator reads.
+
+/*@
+// The compiler keeps a stack of scopes; a macro expansion is compiled inside a scope of type
+// macroBoundary.  Resolving a name walks the stack from the innermost scope outwards and stops
+// AT a macro boundary (after looking into the boundary scope itself) unless the compiler is
+// inside an explicit `unhygienic` splice: the same rule the checker applies to its local
+// environments (types/checker/verif_contracts_hygiene.go), so that both resolve a name to
+// the binding of the same scope.
+spec fn scopeHas(c *BytecodeCompiler, name string, j int) bool = mapHas(elem(c.scopes, j).localTable, name)
+spec rec fn cvisible(c *BytecodeCompiler, name string, j int) *bytecodeLocal = ite(j < 0, nil, ite(scopeHas(c, name, j), elem(c.scopes, j).localTable[name], ite(!c.unhygienic && elem(c.scopes, j).typ == macroBoundaryBytecodeScopeType, nil, cvisible(c, name, j - 1))))
+spec rec fn cfound(c *BytecodeCompiler, name string, j int) bool = ite(j < 0, false, ite(scopeHas(c, name, j), true, ite(!c.unhygienic && elem(c.scopes, j).typ == macroBoundaryBytecodeScopeType, false, cfound(c, name, j - 1))))
+
+func (*BytecodeCompiler).resolveLocal
+  props C31
+  requires c != nil && (forall k int :: 0 <= k && k < len(c.scopes) ==> elem(c.scopes, k) != nil)
+  assigns nothing
+  ensures binding: ret1 ==> ret0 == cvisible(c, name, len(c.scopes) - 1)
+  ensures found: ret1 == cfound(c, name, len(c.scopes) - 1)
+  loop 1
+    invariant -1 <= i && i < len(c.scopes) && !found
+    invariant cvisible(c, name, i) == cvisible(c, name, len(c.scopes) - 1) && cfound(c, name, i) == cfound(c, name, len(c.scopes) - 1)
+    decreases i + 1
+@*/
